@@ -368,8 +368,16 @@ class ConnectionPool(RequestInterface):
     def _close_connections(self, closing: list[ConnectionInterface]) -> None:
         # Close connections which have been removed from the pool.
         with ShieldCancellation():
+            interrupted: BaseException | None = None
             for connection in closing:
-                connection.close()
+                try:
+                    connection.close()
+                except BaseException as exc:
+                    # The connections are no longer in the pool, so nothing
+                    # else is going to close them. Carry on with the others.
+                    interrupted = interrupted or exc
+            if interrupted is not None:
+                raise interrupted
 
     def close(self) -> None:
         # Explicitly close the connection pool.
